@@ -47,13 +47,16 @@ type srcTable struct {
 	rows    []srcRow
 }
 
+var attrNames = []string{"name", "val", "n", "name2", "val2", "n2"}
+var attrDDL = []string{"name TEXT", "val REAL", "n INTEGER", "name2 TEXT", "val2 REAL", "n2 INTEGER"}
+
 func (t *srcTable) attrCols() []string {
-	return []string{"name", "val", "n"}[:t.extra]
+	return attrNames[:t.extra]
 }
 
 func (t *srcTable) columnsDDL() []string {
 	cols := []string{}
-	attrs := []string{"name TEXT", "val REAL", "n INTEGER"}[:t.extra]
+	attrs := attrDDL[:t.extra]
 	for i := 0; i <= len(attrs); i++ {
 		if i == t.gcolPos || (i == len(attrs) && t.gcolPos > len(attrs)) {
 			cols = append(cols, t.gcol+" BLOB")
@@ -107,7 +110,7 @@ func makeSource(path string, tables []*srcTable) {
 				fatal("binary: %v", err)
 			}
 			vals := []interface{}{r.fid}
-			vals = append(vals, []interface{}{r.name, r.val, r.num}[:t.extra]...)
+			vals = append(vals, []interface{}{r.name, r.val, r.num, r.name, r.val, r.num}[:t.extra]...)
 			vals = append(vals, sb)
 			if _, err := h.Exec(q, vals...); err != nil {
 				fatal("insert: %v", err)
